@@ -173,6 +173,11 @@ def dequantizer(chk):
             for w_ in (f"{t}._scale * ({diff_})", f"({diff_}) * {t}._scale", f"{t}._scale * ({diff_}).to({t}._scale.dtype)", f"({diff_}).to({t}._scale.dtype) * {t}._scale"):
                 forms[w_] = d_
         d_used = forms.get(txt)
+        if d_used is None and (txt.startswith(("torch.empty(", "torch.zeros(", "torch.empty_like(")) or (isinstance(core, ast.Call) and isinstance(core.func, ast.Name) and core.func.id.startswith("_"))):
+            # an alternative route: the product is assembled by a helper into a buffer it allocated (slice by slice), next to the at-once route judged on
+            # its own path - the loop is not followed
+            chk.unknown("C02.R3", site, f"dequantize term: on the path [{' & '.join(p.cond_texts())[:70]}] the result is assembled into `{txt[:40]}` by an alternative (sliced) route: not followed")
+            continue
         chk.require("C02.R3", site, d_used is not None, f"dequantize term: `{txt[:110]}` is scale * (codes - zeropoint)", "QBitsDequantizer.forward", "dequantize term", "any low-bit tensor: zero-point not subtracted, or the scale applied to the codes alone")
         if d_used is not None:
             chk.require("C02.R3", site, d_used in WIDE, f"dequantize: codes - zeropoint is formed in {d_used} (holds [-127, 143])", "QBitsDequantizer.forward", "zero-point subtracted in an 8-bit type",
